@@ -30,6 +30,14 @@ pub fn observe_config(id: usize, mal: usize, tags: Vec<String>, j: Value, with_c
     Some(s) => (spdc_all_finite(s), spdc_json(s)),
     None => (vec![], Value::Null),
   };
+  // the refractive indices of the three beams of a constructed setup (each at its own centre frequency)
+  let indices = match &real.3 {
+    Some(s) => {
+      let ix = |b: &spdcalc::beam::Beam| match guarded_loc(|| *b.refractive_index(b.frequency(), &s.crystal_setup)) { Ok(x) => fx_or_null(x), Err(_) => json!("panic") };
+      json!({"signal": ix(&s.signal), "idler": ix(&s.idler), "pump": ix(&s.pump)})
+    }
+    None => Value::Null,
+  };
   // the JSON entry point (serde try_from): must agree with try_as_spdc
   let fj = guarded_loc(|| SPDC::from_json(&text));
   let from_json = match &fj {
@@ -41,27 +49,30 @@ pub fn observe_config(id: usize, mal: usize, tags: Vec<String>, j: Value, with_c
   if with_calls {
     if let Some(s) = &real.3 {
       if nonfinite.is_empty() {
-        calls = finite_calls(s);
+        calls = finite_calls(s, id);
       }
     }
   }
   json!({
     "kind": "cfg", "id": id, "mal": mal, "tags": tags, "json": j, "parse": "ok", "cfg": cfg_json(&cfg),
-    "shadow": sh, "real": {"class": real.0, "msg": real.1, "loc": real.2, "setup": setup, "nonfinite": nonfinite},
+    "shadow": sh, "real": {"class": real.0, "msg": real.1, "loc": real.2, "setup": setup, "nonfinite": nonfinite, "indices": indices},
     "from_json": from_json, "calls": calls,
   })
 }
 
 /// spectrum / rate / HOM calls on a small grid around the centre, inside the transmission window
-pub fn finite_calls(s: &SPDC) -> Value {
-  let integ = Integrator::Simpson { divs: 6 };
+pub fn finite_calls(s: &SPDC, variant: usize) -> Value {
+  // integrator and grid vary from call to call: Simpson with 6 / 10 divisions on 3x3 / 5x5 grids, and the library's DEFAULT
+  // integrator on every fourth setup
+  let integ = match variant % 4 { 0 => Integrator::Simpson { divs: 6 }, 1 => Integrator::Simpson { divs: 10 }, 2 => Integrator::Simpson { divs: 6 }, _ => Integrator::default() };
+  let npts = if variant % 2 == 0 { 3 } else { 5 };
   let win = s.crystal_setup.crystal.get_meta().transmission_range;
   let r = guarded_loc(|| {
     let ws0 = s.signal.frequency();
     let wi0 = s.idler.frequency();
     // +-0.2 % around the centres
-    let d = 0.002;
-    let fs = FrequencySpace::new((ws0 * (1. - d), ws0 * (1. + d), 3), (wi0 * (1. - d), wi0 * (1. + d), 3));
+    let d = if variant % 3 == 0 { 0.002 } else { 0.01 };
+    let fs = FrequencySpace::new((ws0 * (1. - d), ws0 * (1. + d), npts), (wi0 * (1. - d), wi0 * (1. + d), npts));
     let inside = match win {
       Some(w) => {
         let l = |w_: Frequency| *(utils::frequency_to_vacuum_wavelength(w_) / M);
@@ -77,7 +88,7 @@ pub fn finite_calls(s: &SPDC) -> Value {
     let cc = *(s.counts_coincidences(fs, integ) / HZ);
     let cs = *(s.counts_singles_signal(fs, integ) / HZ);
     let ci = *(s.counts_singles_idler(fs, integ) / HZ);
-    let hom = s.hom_rate_series(Steps(-1e-12 * S, 1e-12 * S, 3), fs, integ);
+    let hom = s.hom_rate_series(Steps(-1e-12 * S, 1e-12 * S, npts), fs, integ);
     let mut bad: Vec<&str> = vec![];
     if jsa.iter().any(|z| !z.re.is_finite() || !z.im.is_finite()) { bad.push("jsa"); }
     if jsi.iter().any(|z| !z.value_unsafe.is_finite()) { bad.push("jsi"); }
@@ -88,8 +99,13 @@ pub fn finite_calls(s: &SPDC) -> Value {
     if hom.iter().any(|z| !z.is_finite()) { bad.push("hom_rate_series"); }
     let bad_norm = jsn.iter().any(|z| !z.is_finite());
     let jsa_all_zero = jsa.iter().all(|z| z.re == 0. && z.im == 0.);
+    // the reference of the normalisation: the optimised setup's JSI at its own centre (exactly 0 makes every normalised value x/0)
+    let reference_zero = guarded_loc(|| {
+      let o = s.clone().try_as_optimum().ok()?;
+      Some(*(o.joint_spectrum(integ).jsi(o.signal.frequency(), o.idler.frequency()) / JSIUnits::new(1.)) == 0.)
+    }).ok().flatten();
     json!({"class": "ok", "inside_window": inside, "nonfinite": bad, "normalized_nonfinite": bad_norm, "jsa_all_zero": jsa_all_zero,
-           "cc": fx(cc), "cs": fx(cs), "ci": fx(ci)})
+           "reference_zero": reference_zero, "variant": variant, "grid": npts, "cc": fx(cc), "cs": fx(cs), "ci": fx(ci)})
   });
   match r {
     Ok(v) => v,
@@ -99,7 +115,7 @@ pub fn finite_calls(s: &SPDC) -> Value {
 
 /// the classes of the malformed / boundary stream, by weight
 pub fn mal_class(k: usize) -> usize {
-  const W: [usize; 20] = [0, 0, 0, 0, 0, 0, 1, 1, 1, 1, 2, 2, 3, 3, 4, 4, 5, 6, 6, 7];
+  const W: [usize; 22] = [0, 0, 0, 0, 0, 0, 1, 1, 1, 1, 2, 2, 3, 3, 4, 4, 5, 6, 6, 7, 8, 8];
   W[k % W.len()]
 }
 
@@ -201,6 +217,46 @@ pub fn corpus() -> Vec<(&'static str, Value)> {
     ("ls_eq_lp:theta_explicit:pp_off:idler_auto", base(775., 775., json!(90), Value::Null, json!("auto"), 0.)),
     ("nan_cost:signal_80deg:theta_auto", base(1550., 775., json!("auto"), Value::Null, json!("auto"), 80.)),
     ("nan_cost:signal_400deg:theta_auto", base(1550., 775., json!("auto"), Value::Null, json!("auto"), 400.)),
+    ("nan_cost:signal_external_318deg:theta_auto", {
+      let mut j = base(1550., 775., json!("auto"), Value::Null, json!("auto"), 0.);
+      j["signal"].as_object_mut().unwrap().remove("theta_deg");
+      j["signal"]["theta_external_deg"] = json!(318.5);
+      j
+    }),
+    ("signal_external_318deg:theta_explicit", {
+      let mut j = base(1550., 775., json!(90), Value::Null, json!("auto"), 0.);
+      j["signal"].as_object_mut().unwrap().remove("theta_deg");
+      j["signal"]["theta_external_deg"] = json!(318.5);
+      j
+    }),
+    ("expr_crystal:unknown_variable", {
+      let mut j = base(810., 405., json!(30), Value::Null, json!("auto"), 0.);
+      j["crystal"]["kind"] = json!({"no": "sqrt(2.7359+0.01878/(l^2-0.01822)-0.01354*l^2)+q", "ne": "sqrt(2.3753+0.01224/(l^2-0.01667)-0.01516*l^2)"});
+      j["crystal"]["pm_type"] = json!("e->oo");
+      j
+    }),
+    ("expr_crystal:valid", {
+      let mut j = base(810., 405., json!(30), Value::Null, json!("auto"), 0.);
+      j["crystal"]["kind"] = json!({"no": "sqrt(2.7359+0.01878/(l^2-0.01822)-0.01354*l^2)", "ne": "sqrt(2.3753+0.01224/(l^2-0.01667)-0.01516*l^2)"});
+      j["crystal"]["pm_type"] = json!("e->oo");
+      j
+    }),
+    ("counter_propagation:idler_auto", {
+      let mut j = base(1550., 775., json!(90), ppa.clone(), json!("auto"), 0.);
+      j["crystal"]["counter_propagation"] = json!(true);
+      j
+    }),
+    ("counter_propagation:theta_auto", {
+      let mut j = base(1550., 775., json!("auto"), Value::Null, json!("auto"), 1.0);
+      j["crystal"]["counter_propagation"] = json!(true);
+      j
+    }),
+    ("nan_cost_period_search:backward_signal:pp_auto", json!({
+      "crystal": {"kind": "KDP_1", "length_um": 7276.51, "phi_deg": 193.27, "pm_type": "Type_2_e_oe", "temperature_c": 10.3189, "theta_deg": 99.2044},
+      "deff_pm_per_volt": 4.92797, "periodic_poling": {"poling_period_um": "auto"},
+      "pump": {"average_power_mw": 5.20792, "bandwidth_nm": 0.132943, "waist_um": 174.77, "wavelength_nm": 226.047},
+      "signal": {"phi_deg": -270.44, "theta_deg": 233.876, "waist_position_um": "auto", "waist_um": 200.76, "wavelength_nm": 452.095}
+    })),
     ("signal_80deg:pp_auto", base(1550., 775., json!(90), ppa.clone(), json!("auto"), 80.)),
     ("zero_period", base(1550., 775., json!(90), json!({"poling_period_um": 0.0}), json!("auto"), 0.)),
     ("auto_theta_with_poling", base(1550., 775., json!("auto"), ppe.clone(), json!("auto"), 0.)),
@@ -227,6 +283,12 @@ pub fn corpus() -> Vec<(&'static str, Value)> {
       "pump": {"wavelength_nm": 532, "waist_um": 80, "bandwidth_nm": 0.5, "average_power_mw": 2},
       "signal": {"wavelength_nm": 1000, "phi_deg": 20, "theta_external_deg": 2.0, "waist_um": 60},
       "deff_pm_per_volt": 3.0
+    })),
+    ("counter_propagation:explicit_period:noncollinear:spectrum_calls", json!({
+      "crystal": {"counter_propagation": true, "kind": "AgGaSe2_2", "length_um": 216.698, "phi_deg": 0.0, "pm_type": "TYPE0_o_oo", "temperature_c": 91.5515, "theta_deg": 90.0},
+      "deff_pm_per_volt": 7.56564, "periodic_poling": {"poling_period_um": -2.38266},
+      "pump": {"average_power_mw": 283.515, "bandwidth_nm": 0.767415, "waist_um": 104.886, "wavelength_nm": 3255.0},
+      "signal": {"phi_deg": 0.0, "theta_deg": 1.0, "waist_position_um": 23.6367, "waist_um": 220.313, "wavelength_nm": 6510.0}
     })),
     ("crystal_theta_zero:spectrum_calls", base(1550., 775., json!(0), ppa.clone(), json!("auto"), 0.)),
     ("crystal_theta_zero:no_pp:spectrum_calls", base(1550., 775., json!(0.0), Value::Null, json!("auto"), 0.5)),
